@@ -8,6 +8,11 @@
 (*   peersok   = each registered link reports the other's true address       *)
 (*   trafficok = (both registered) a frame sent over either link end arrived  *)
 (*               byte-identical at the other router's frame handler           *)
+(*   op "splice" (Handshake.tla): the idx-th message of dir was replaced by   *)
+(*   one put together from it and from material its receiver had verified      *)
+(*   before (an earlier completed connection of the pair, earlier messages of  *)
+(*   this connection) - "detail" says which bytes under which signature.  It   *)
+(*   is a faulty message like any other: its receiver registers no link.       *)
 (***************************************************************************)
 EXTENDS Integers, Sequences, TLC, Json
 
@@ -53,6 +58,9 @@ OverlapOK == /\ (Ev.regD /\ Ev.regL) => (Ev.trafficok /\ ~Ev.clear)
 (*  {"ev":"impersonate","claim":"swapped"|"genuine","conn":N,"registered":B,"bound":"none"|"P"|"M"|"other"}       *)
 (*   a router M claims the address of a router P that never takes part, over a history of connections to one      *)
 (*   victim (HandshakeImpersonate.tla): P's address with M's key, or P's genuine identity; all signed by M.       *)
+(*   claim "recorded" ("sigs": how they were chosen, "meetings": genuine handshakes of P and the victim before):   *)
+(*   P's genuine identity, M's own messages, under each a signature P made for another message in an earlier      *)
+(*   genuine handshake with this victim.  P does not take part in THIS connection: the same two rules.             *)
 ImpersonateOK == /\ ~Ev.registered                           \* AuthOnRegister
                  /\ Ev.bound \in {"none", "P"}                \* NoForeignBinding
 
